@@ -1915,6 +1915,14 @@ def project_by_dykstra(weights,
     joint_monotonicities = []
   if joint_unimodalities is None:
     joint_unimodalities = []
+  # Constraints are used as dictionary keys below. After a round trip through a
+  # serialized config (e.g. model.to_json() or a saved model) they come back as
+  # lists rather than tuples.
+  edgeworth_trusts = [tuple(t) for t in edgeworth_trusts]
+  trapezoid_trusts = [tuple(t) for t in trapezoid_trusts]
+  monotonic_dominances = [tuple(t) for t in monotonic_dominances]
+  range_dominances = [tuple(t) for t in range_dominances]
+  joint_monotonicities = [tuple(t) for t in joint_monotonicities]
   if units > 1:
     lattice_sizes = list(lattice_sizes) + [int(units)]
     monotonicities = list(monotonicities) + [0]
